@@ -143,6 +143,26 @@ PROPS['C16'] = {
     'probes': ['context_switches', 'points@fast-path-cache:store', 'points@image:dirty-test', 'points@image:recompute'],
 }
 
+PROPS['C17'] = {
+    'level': 'exploration',
+    'passes': [{'variant': 'asan', 'binary': 'glyph16', 'runs': [40000, 1500000], 'deadline_s': [120, 2400], 'tag': 'slots16'},
+               {'variant': 'asan', 'binary': 'glyph64', 'runs': [15000, 500000], 'deadline_s': [120, 2400], 'tag': 'slots64'},
+               {'variant': 'asan', 'binary': 'glyph', 'runs': [160, 4000], 'deadline_s': [150, 2400], 'tag': 'real'}],
+    'crash_property': 'C17',
+    'hang_s': 300,
+    'shrink_budget': 150,
+    'rule': ("one evaluation = one seeded history of 20-90 (thorough: -160) cache operations - freeze, thaw, insert (only while frozen and only of absent keys, as the API demands), "
+             "lookup and remove of present and absent keys, caller scribbling over the original image, glyph runs through composite_glyphs and composite_glyphs_no_mask, table-filling "
+             "runs, allocation failures on insert - over keys that include exact hash collisions ((1,5),(2,4),(3,3) ...), against a model map with LRU order and a tombstone bound; hook H4 "
+             "bounds every call to HASH_SIZE probe steps; glyph runs are compared with per-glyph compositing / ADD-accumulation into a mask on the same chain.  Three builds: 16-slot, "
+             "64-slot (hook H4) and the real 32768-slot table.  Non-trivial = at least 3 entries and 3 checked lookups; distinct = distinct event hashes"),
+    'real_vs_stub': {'real': ['pixman-glyph.c and everything it calls (all of pixman)'],
+                     'stub_or_simulated': ['table size 16/8/4 and 64/32/16 through hook H4 in two of the three passes', 'malloc failures on insert', 'probe-step counter through hook H4']},
+    'assumptions': COMMON_ASSUME + ["insert is only issued while frozen and only for absent keys (API preconditions)", "glyphs are drawn wholly inside the destination so that 'drawn' (hence LRU order) is unambiguous",
+                                    "where the outcome of a thaw depends on the internal tombstone count the oracle accepts: unchanged / the LOW most recently used / empty, and is exact where the API fixes the outcome"],
+    'probes': ['lookups_checked', 'entries_evicted_by_thaw', 'inserts_refused_full', 'glyph_runs_compared', 'faults_fired', 'runs_filling_table', 'thaw_emptied_table'],
+}
+
 MANIFEST_TEXT = {}
 MANIFEST_TEXT['C06'] = {
     'technique': 'deterministic simulation: seeded operation histories with allocation-fault events against the real region code; canonical-form invariants + point-set equality oracle after every step',
@@ -197,4 +217,11 @@ MANIFEST_TEXT['C16'] = {
     'level_text': "seeded search over interleavings (one seed = one exactly repeatable schedule) and workloads; thousands of distinct interleavings per run, counted",
     'level_note': "yield points exist only where listed; TSan sees every instrumented access but only under serialised schedules",
     'design_ref': 'DESIGN.md section 4, C16',
+}
+
+MANIFEST_TEXT['C17'] = {
+    'technique': 'deterministic simulation over histories: seeded glyph-cache histories with allocation-fault events against a map/LRU/tombstone-bound model, bounded probe steps through a guarded hook, small-scope table builds, differential glyph drawing',
+    'level_text': "seeded search over cache histories at three table sizes (16, 64 and the real 32768 slots); every lookup, insert, thaw and glyph run of every history is checked against the model",
+    'level_note': "small-scope tables come from hook H4 (water marks overridable under PIXMAN_VERIF); the real-size pass runs fewer, longer histories",
+    'design_ref': 'DESIGN.md section 4, C17',
 }
